@@ -36,12 +36,15 @@ func checkC14() int {
 	pool := newPool()
 	r := rand.New(rand.NewSource(subSeed(c.Seed, 1414)))
 	nProg := c.pick(250, 1500)
-	c.Rule = "G1 programs (split / multi-name heavy, recursion, explicit provider names) and, for each, alpha-equivalent variants: benign renaming of every bound name, function, type and label; adversarial renaming drawing bound names, parameters and top-level names from a pool of three identifiers (coincidences across scopes, never capture: a binder avoids the names still owed a use and the provider alias); permutation of declarations and of case branches; oracle: the same typechecking verdict, and in async and sync mode (np too when contraction-free) the same printed multiset up to the label map and the same clean completion; non-trivial = distinct program with >= 1 adversarial variant that was run"
+	c.Rule = "G1 programs (split / multi-name heavy, recursion, explicit provider names; plus parallel compositions of 12 programs with 30..60 top-level processes) and, for each, alpha-equivalent variants: benign renaming of every bound name, function, type and label; adversarial renaming drawing bound names, parameters and top-level names from a pool of three identifiers (coincidences across scopes, never capture: a binder avoids the names still owed a use and the provider alias); permutation of declarations and of case branches; oracle: the same typechecking verdict, and in async and sync mode (np too when contraction-free) the same printed multiset up to the label map and the same clean completion; non-trivial = distinct program with >= 1 adversarial variant that was run"
 	c.Assumptions = []string{"variants the reference typechecker R1 does not accept are transformation bugs: skipped and counted, never reported", "exact quiescence"}
 	cases := genCases(c, nProg, 14, func(i int) *gen.Opt {
 		o := gen.Opt{MaxSplit: 4, Pol: 2, Alias: 35, ExplicitSelf: 15, ExplicitProv: 20, Exec: 10, Print: 14, TopMax: 3, Fuel: 3, MultiProv: 35, Drop: 15, Split: 28, Mixed: i%4 == 0, MainMode: []vast.Mode{vast.Rep, vast.Mul, vast.Rep, vast.Lin}[i%4]}
 		return &o
 	})
+	// wide programs: parallel compositions of 12 programs (30..60 top-level processes); their
+	// variants permute the declarations, so which processes are declared last changes
+	cases = append(cases, wideCases(c, c.pick(10, 80), 12, 35, nil)...)
 	type variant struct {
 		base   *progCase
 		kind   string
